@@ -333,7 +333,18 @@ class IArr(IdxND):
             return IArr((1, self.shape[0]), lambda i, j: self.fn(j), self.dtype, self.fresh)
         if self.ndim == 1 and shape == (-1,):
             return self
+        if self.ndim == 2 and len(shape) == 2 and shape[1] == -1 and bool(dim_eq(shape[0], self.shape[0])):
+            return self
         raise Unsupported(f"reshape{shape} in the index domain")
+
+    def squeeze(self, axis=None):
+        if axis is None:
+            raise Unsupported("squeeze without an axis")
+        ax = axis if axis >= 0 else self.ndim + axis
+        if SInt.lift(self.shape[ax]).concrete() != 1:
+            raise ValueError("cannot select an axis to squeeze out which has size not equal to one")
+        shape = tuple(s_ for j, s_ in enumerate(self.shape) if j != ax)
+        return IArr(shape, lambda *ix: self.fn(*(ix[:ax] + (z3.IntVal(0),) + ix[ax:])), self.dtype, fresh=False)
 
     # ---- indexing
     def __getitem__(self, key):
@@ -553,6 +564,15 @@ class IArr(IdxND):
     def __matmul__(self, o):
         if hasattr(o, "_rmatmat") and not isinstance(o, IArr):
             return NotImplemented
+        if isinstance(o, IArr) and self.ndim == 3 and o.ndim == 3:
+            if not bool(dim_eq(self.shape[0], o.shape[0])) or not bool(dim_eq(self.shape[2], o.shape[1])):
+                raise ValueError(f"matmul: dimension mismatch {self.shape} @ {o.shape}")
+            kk = self.shape[2]
+
+            def fnb(bb, i, j):
+                v = fresh_idx("m")
+                return eliminate(v, 0, kk, [Ent([], _mulv(ents_expr(self.fn(bb, i, v)), ents_expr(o.fn(bb, v, j))))])
+            return IArr((self.shape[0], self.shape[1], o.shape[2]), fnb, np.promote_types(self.dtype, o.dtype))
         if isinstance(o, IArr):
             if self.ndim != 2 or o.ndim not in (1, 2):
                 raise Unsupported("matmul rank")
